@@ -12,8 +12,8 @@ ASSUMPTIONS = ["signal mode and minute frequency (stock accounts, synthesised mi
 def run(ctx):
     corr = ctx.corr("DefaultBarMatcher.match -> order", "order status, filled quantity, average price, cost and the bar accumulator after every real matcher call vs model `matchOrder/orderAfter`")
     tstream.stream(ctx, ctx.n(60, 3000), None, [monitors.c04_monitor], extra_sync=lambda c, tr, ix: match_sync.run_sync(c, corr, tr, ix),
-                   cfg_opts=lambda k: ({"trade_handler_acts": True, "force_volume_limit": True, "otp": True} if k % 2 else {"otp": True}),
-                   market_opts=lambda k: ({"n_stocks": 3, "opts": {"p_thin": 1.0, "p_delist": 0.05}} if k % 2 else {}))
+                   cfg_opts=lambda k: ({"trade_handler_acts": True, "force_volume_limit": True, "otp": True} if k % 2 else {"otp": True, "fut_plan": "split_close" if k % 4 == 0 else None}),
+                   market_opts=lambda k: ({"n_stocks": 3, "opts": {"p_thin": 1.0, "p_delist": 0.05}} if k % 2 else ({"with_future": True} if k % 4 == 0 else {})))
     # minute frequency (current_bar / next_bar matching): event-stream monitor only
     minute_stream.stream(ctx, ctx.n(4, 120), [monitors.c04_monitor])
 
